@@ -2,7 +2,7 @@
 // orthotropic stiffness tensors for every modelling hypothesis / alteration / axes convention.
 //
 // Every "out" tensor handed to the traced code is pre-filled with fresh input symbols
-// (g<i><j>, "garbage"): a component which the code forgets to assign shows up as a garbage
+// (`g`, "garbage"): a component which the code forgets to assign shows up as a garbage
 // symbol in the generated definitions and breaks the theorems.
 #include "tracehelp.hxx"
 #include <utility>
@@ -56,10 +56,11 @@ constexpr int ssize() {
   return StensorDimeToSize<N>::value;
 }
 
-//! pre-fill a fourth order tensor with garbage input symbols g00, g01, ...
+//! pre-fill a fourth order tensor with the garbage input symbol `g`
 template <unsigned short N>
 void garbage(st2tost2<N, Sym>& C) {
-  verif::fill_inputs2(C, "g", ssize<N>(), ssize<N>());
+  const Sym g = verif::scalar_input("g", 7.5);
+  for (auto& v : C) v = g;
 }
 template <unsigned short N>
 void out4(const st2tost2<N, Sym>& C) {
@@ -88,9 +89,9 @@ struct OrthoInputs {
       : E1(verif::scalar_input("E1", 150.)),
         E2(verif::scalar_input("E2", 120.)),
         E3(verif::scalar_input("E3", 90.)),
-        n12(verif::scalar_input("n12", 0.31)),
-        n23(verif::scalar_input("n23", 0.27)),
-        n13(verif::scalar_input("n13", 0.23)),
+        n12(verif::scalar_input("nu12", 0.31)),
+        n23(verif::scalar_input("nu23", 0.27)),
+        n13(verif::scalar_input("nu13", 0.23)),
         G12(verif::scalar_input("G12", 41.)),
         G23(verif::scalar_input("G23", 37.)),
         G13(verif::scalar_input("G13", 33.)) {}
@@ -231,91 +232,119 @@ void trace_lame_dim() {
 void trace_moduli() {
   {
     Unit u("YN_ToKG");
-    const YoungNuModuli<Sym> m(verif::scalar_input("E", 200.), verif::scalar_input("nu", 0.3));
+    const Sym E = verif::scalar_input("E", 200.);
+    const Sym nu = verif::scalar_input("nu", 0.3);
+    const YoungNuModuli<Sym> m(E, nu);
     const auto r = m.ToKG();
     verif::output("kappa", r.kappa);
     verif::output("mu", r.mu);
   }
   {
     Unit u("YN_ToLambdaMu");
-    const YoungNuModuli<Sym> m(verif::scalar_input("E", 200.), verif::scalar_input("nu", 0.3));
+    const Sym E = verif::scalar_input("E", 200.);
+    const Sym nu = verif::scalar_input("nu", 0.3);
+    const YoungNuModuli<Sym> m(E, nu);
     const auto r = m.ToLambdaMu();
     verif::output("lambda", r.lambda);
     verif::output("mu", r.mu);
   }
   {
     Unit u("YN_ToYoungNu");
-    const YoungNuModuli<Sym> m(verif::scalar_input("E", 200.), verif::scalar_input("nu", 0.3));
+    const Sym E = verif::scalar_input("E", 200.);
+    const Sym nu = verif::scalar_input("nu", 0.3);
+    const YoungNuModuli<Sym> m(E, nu);
     const auto r = m.ToYoungNu();
     verif::output("young", r.young);
     verif::output("nu", r.nu);
   }
   {
     Unit u("KG_ToYoungNu");
-    const KGModuli<Sym> m(verif::scalar_input("K", 170.), verif::scalar_input("G", 77.));
+    const Sym kap = verif::scalar_input("kap", 170.);
+    const Sym mu = verif::scalar_input("mu", 77.);
+    const KGModuli<Sym> m(kap, mu);
     const auto r = m.ToYoungNu();
     verif::output("young", r.young);
     verif::output("nu", r.nu);
   }
   {
     Unit u("KG_ToLambdaMu");
-    const KGModuli<Sym> m(verif::scalar_input("K", 170.), verif::scalar_input("G", 77.));
+    const Sym kap = verif::scalar_input("kap", 170.);
+    const Sym mu = verif::scalar_input("mu", 77.);
+    const KGModuli<Sym> m(kap, mu);
     const auto r = m.ToLambdaMu();
     verif::output("lambda", r.lambda);
     verif::output("mu", r.mu);
   }
   {
     Unit u("KG_ToKG");
-    const KGModuli<Sym> m(verif::scalar_input("K", 170.), verif::scalar_input("G", 77.));
+    const Sym kap = verif::scalar_input("kap", 170.);
+    const Sym mu = verif::scalar_input("mu", 77.);
+    const KGModuli<Sym> m(kap, mu);
     const auto r = m.ToKG();
     verif::output("kappa", r.kappa);
     verif::output("mu", r.mu);
   }
   {
     Unit u("LM_ToYoungNu");
-    const LambdaMuModuli<Sym> m(verif::scalar_input("lambda", 115.), verif::scalar_input("mu", 77.));
+    const Sym lambda = verif::scalar_input("lambda", 115.);
+    const Sym mu = verif::scalar_input("mu", 77.);
+    const LambdaMuModuli<Sym> m(lambda, mu);
     const auto r = m.ToYoungNu();
     verif::output("young", r.young);
     verif::output("nu", r.nu);
   }
   {
     Unit u("LM_ToKG");
-    const LambdaMuModuli<Sym> m(verif::scalar_input("lambda", 115.), verif::scalar_input("mu", 77.));
+    const Sym lambda = verif::scalar_input("lambda", 115.);
+    const Sym mu = verif::scalar_input("mu", 77.);
+    const LambdaMuModuli<Sym> m(lambda, mu);
     const auto r = m.ToKG();
     verif::output("kappa", r.kappa);
     verif::output("mu", r.mu);
   }
   {
     Unit u("LM_ToLambdaMu");
-    const LambdaMuModuli<Sym> m(verif::scalar_input("lambda", 115.), verif::scalar_input("mu", 77.));
+    const Sym lambda = verif::scalar_input("lambda", 115.);
+    const Sym mu = verif::scalar_input("mu", 77.);
+    const LambdaMuModuli<Sym> m(lambda, mu);
     const auto r = m.ToLambdaMu();
     verif::output("lambda", r.lambda);
     verif::output("mu", r.mu);
   }
   {
     Unit u("computeLambda");
-    verif::output("r", computeLambda<Sym>(verif::scalar_input("E", 200.), verif::scalar_input("nu", 0.3)));
+    const Sym E = verif::scalar_input("E", 200.);
+    const Sym nu = verif::scalar_input("nu", 0.3);
+    verif::output("r", computeLambda<Sym>(E, nu));
   }
   {
     Unit u("computeMu");
-    verif::output("r", computeMu<Sym>(verif::scalar_input("E", 200.), verif::scalar_input("nu", 0.3)));
+    const Sym E = verif::scalar_input("E", 200.);
+    const Sym nu = verif::scalar_input("nu", 0.3);
+    verif::output("r", computeMu<Sym>(E, nu));
   }
   // stiffness tensor from each moduli class (through the virtual ToKG)
   {
     Unit u("stiffness_KG");
-    const KGModuli<Sym> m(verif::scalar_input("K", 170.), verif::scalar_input("G", 77.));
+    const Sym kap = verif::scalar_input("kap", 170.);
+    const Sym mu = verif::scalar_input("mu", 77.);
+    const KGModuli<Sym> m(kap, mu);
     const st2tost2<3u, Sym> C = computeIsotropicStiffnessTensor<Sym>(m);
     out4(C);
   }
   {
     Unit u("stiffness_YN");
-    const YoungNuModuli<Sym> m(verif::scalar_input("E", 200.), verif::scalar_input("nu", 0.3));
+    const Sym E = verif::scalar_input("E", 200.);
+    const Sym nu = verif::scalar_input("nu", 0.3);
+    const YoungNuModuli<Sym> m(E, nu);
     const st2tost2<3u, Sym> C = computeIsotropicStiffnessTensor<Sym>(m);
     out4(C);
   }
   {
     Unit u("stiffness_LM");
-    const LambdaMuModuli<Sym> m(verif::scalar_input("lambda", 115.), verif::scalar_input("mu", 77.));
+    const Sym lambda = verif::scalar_input("lambda", 115.);
+    const Sym mu = verif::scalar_input("mu", 77.);
+    const LambdaMuModuli<Sym> m(lambda, mu);
     const st2tost2<3u, Sym> C = computeIsotropicStiffnessTensor<Sym>(m);
     out4(C);
   }
@@ -349,27 +378,33 @@ void trace_moduli() {
   {
     // round trip on the real code: moduli -> tensor -> moduli
     Unit u("roundtrip_KG");
-    const KGModuli<Sym> m(verif::scalar_input("K", 170.), verif::scalar_input("G", 77.));
+    const Sym kap = verif::scalar_input("kap", 170.);
+    const Sym mu = verif::scalar_input("mu", 77.);
+    const KGModuli<Sym> m(kap, mu);
     const st2tost2<3u, Sym> C = computeIsotropicStiffnessTensor<Sym>(m);
     const auto p = computeKGModuli<Sym>(C);
     verif::output("kappa", p.kappa);
     verif::output("mu", p.mu);
   }
   {
-    // isIsotropic on an arbitrary tensor: the tested quantity and the decision (concolic)
-    Unit u("isIsotropic_generic");
-    st2tost2<3u, Sym> A;
-    verif::fill_inputs2(A, "a", 6, 6);
+    // isIsotropic on the tensor computed from (K,G)
+    Unit u("isIsotropic_KG");
+    const Sym kap = verif::scalar_input("kap", 170.);
+    const Sym mu = verif::scalar_input("mu", 77.);
+    const KGModuli<Sym> m(kap, mu);
     const Sym eps = verif::scalar_input("eps", 1e-12);
+    const st2tost2<3u, Sym> C = computeIsotropicStiffnessTensor<Sym>(m);
     verif::ctx().concolic = true;
-    const bool b = isIsotropic<Sym>(A, eps);
+    const bool b = isIsotropic<Sym>(C, eps);
     verif::ctx().concolic = false;
     verif::output("accepted", Sym(b ? 1 : 0));
   }
   {
-    // isIsotropic on the tensor computed from (K,G)
-    Unit u("isIsotropic_KG");
-    const KGModuli<Sym> m(verif::scalar_input("K", 170.), verif::scalar_input("G", 77.));
+    // isIsotropic on the tensor computed from (E,nu)
+    Unit u("isIsotropic_YN");
+    const Sym E = verif::scalar_input("E", 200.);
+    const Sym nu = verif::scalar_input("nu", 0.3);
+    const YoungNuModuli<Sym> m(E, nu);
     const Sym eps = verif::scalar_input("eps", 1e-12);
     const st2tost2<3u, Sym> C = computeIsotropicStiffnessTensor<Sym>(m);
     verif::ctx().concolic = true;
